@@ -467,13 +467,16 @@ func preferFilepathJoin(m dsl.Matcher) {
 //doc:before  w.Write([]byte("foo"))
 //doc:after   w.WriteString("foo")
 func preferStringWriter(m dsl.Matcher) {
+	// $s can be a []byte or a named type ([]byte(b) is a valid conversion for these),
+	// $w can be an expression that needs parenthesis in the selector position (*pw).
 	m.Match(`$w.Write([]byte($s))`).
-		Where(m["w"].Type.Implements("io.StringWriter")).
+		Where(m["w"].Type.Implements("io.StringWriter") && m["s"].Type.Is(`string`)).
 		Suggest("$w.WriteString($s)").
 		Report(`$w.WriteString($s) should be preferred to the $$`)
 
 	m.Match(`io.WriteString($w, $s)`).
-		Where(m["w"].Type.Implements("io.StringWriter")).
+		Where(m["w"].Type.Implements("io.StringWriter") &&
+			!m["w"].Node.Is(`StarExpr`) && !m["w"].Node.Is(`UnaryExpr`) && !m["w"].Node.Is(`BinaryExpr`)).
 		Suggest("$w.WriteString($s)").
 		Report(`$w.WriteString($s) should be preferred to the $$`)
 }
